@@ -932,3 +932,86 @@ func FuzzC03(f *testing.F) {
 		}
 	})
 }
+
+// TestC03ForeignWindow: a DEFLATE stream whose very first instruction copies from `distance`
+// bytes back - before the first byte this connection has ever received - is corrupt for a
+// reference RFC 7692 receiver, which starts every connection with an empty LZ77 window: the
+// read fails. An endpoint that hands a new connection the window of an earlier one (the
+// process has closed connections with context takeover by then) inflates it "successfully" and
+// delivers a message nobody sent - the other connection's plaintext. Enumerated: role x
+// distance x how the earlier connection ended.
+func TestC03ForeignWindow(t *testing.T) {
+	rec := evid.For("C03")
+	secret := bytes.Repeat([]byte("SECRET-OF-AN-EARLIER-CONNECTION "), 2100) // 67 KB: fills and slides a 32 KiB window
+	for _, modeName := range []string{"server/takeover", "client/takeover"} {
+		var mode c03Mode
+		for _, m := range c03Modes {
+			if m.Name == modeName {
+				mode = m
+			}
+		}
+		for _, how := range []string{"closenow", "close", "peer-gone"} {
+			for _, dist := range []int{1, 258, 4096, 32768} {
+				desc := fmt.Sprintf("foreignwindow|%s|%s|%d", modeName, how, dist)
+				var msg string
+				synctest.Test(t, func(t *testing.T) {
+					e := newEnv(t)
+					defer e.Teardown()
+					for k := 0; k < 3; k++ { // a few earlier connections, so that the pools hold their leftovers
+						a, err := e.open(connSpec{Client: mode.Client, Mode: mode.Mode, Ext: mode.Ext})
+						if err != nil {
+							msg = "handshake: " + err.Error()
+							return
+						}
+						a.Peer.onFrame = func(f ref.Frame) {
+							if f.Opcode == ref.OpClose {
+								a.Peer.send(ref.Frame{Fin: true, Opcode: ref.OpClose, Payload: f.Payload})
+							}
+						}
+						a.Peer.start(e)
+						a.C.SetReadLimit(1 << 20)
+						def := ref.NewDeflater(true)
+						a.Peer.send(ref.Frame{Fin: true, Rsv1: true, Opcode: ref.OpText, Payload: def.Message(secret, ref.DVSync)})
+						if _, got, err := a.C.Read(context.Background()); err != nil || !bytes.Equal(got, secret) {
+							msg = fmt.Sprintf("setup: the earlier connection did not receive its message: %v", err)
+							return
+						}
+						switch how {
+						case "closenow":
+							a.C.CloseNow()
+						case "close":
+							a.C.Close(websocket.StatusNormalClosure, "")
+						default:
+							a.End.Close()
+							a.C.Read(context.Background())
+							a.C.CloseNow()
+						}
+					}
+					b, err := e.open(connSpec{Client: mode.Client, Mode: mode.Mode, Ext: mode.Ext})
+					if err != nil {
+						msg = "handshake: " + err.Error()
+						return
+					}
+					b.Peer.start(e)
+					b.Peer.send(ref.Frame{Fin: true, Rsv1: true, Opcode: ref.OpText, Payload: ref.CraftBackref(dist)})
+					var got []byte
+					var rerr error
+					d := e.Call(func() { _, got, rerr = b.C.Read(context.Background()) })
+					if !within(d, 30*time.Second) {
+						msg = "Read did not return"
+						return
+					}
+					if rerr == nil {
+						msg = fmt.Sprintf("a compressed message that copies from %d bytes before the start of the connection's stream was delivered (%d bytes: %q...): a reference receiver starts with an empty window and rejects it", dist, len(got), got[:min(40, len(got))])
+					} else if bytes.Contains(got, []byte("SECRET")) {
+						msg = "the failed read handed out bytes of an earlier connection's message"
+					}
+				})
+				rec.Case(true, desc, "back-reference-before-the-start-of-the-connection")
+				if msg != "" {
+					failCase(t, "C03", desc, "%s", msg)
+				}
+			}
+		}
+	}
+}
